@@ -84,11 +84,22 @@ bool verif_winit(zckCtx *zck, zckComp *comp);
 #define WR_STARTED_WF(z) (WR_COMMON(z) && (z)->comp.started != 0 && WR_BOUNDS(z))
 #define WR_WF(z) (WR_COMMON(z) && ((z)->comp.started != 0 ? WR_BOUNDS(z) : (OPT_WF(z) && (z)->comp.dc_data_size == 0 && (z)->comp.dc_data == NULL && (z)->work_index_item == NULL)))
 
+/* nothing is pending exactly when there is no entry under construction (zck_close relies on it: a context
+ * with dc_data_size == 0 has no half-built index entry) */
+#define PENDING_WF(z) (((z)->comp.dc_data_size == 0) == ((z)->work_index_item == NULL))
+
 /* frames */
 #define WR_GHOST_IO g_fpos, g_wr_bytes, g_io_failed, g_win_bad
 #define WR_GHOST_HU g_hu_total, g_hu_seen, g_hu_ptr, g_hu_final, g_hu_inits, g_fin_val, g_fin_total, g_fin_seen, g_fin_ptr
 #define WR_WORKHASHES zck->work_index_hash, zck->work_index_hash_uncomp
 #define WI_OLD_LEN(z)  (V_OLD((z)->work_index_item) == NULL ? (size_t)0 : V_OLD((z)->work_index_item->length))
+/* Dereferences in POSTconditions go through the pre-state snapshot of the pointer whenever the entry existed
+ * before the call: CBMC resolves `p->f` by p's value set, and the value set of a pointer FIELD that a replaced
+ * callee (or a loop) havocked is not restored by an assumed `p == old(p)` -- `zck->work_index_item->length`
+ * would then read a phantom object (found with unit comp_write: clauses about node contents failed although
+ * the callee contract implied them).  A pointer assigned by __CPROVER_is_fresh has a precise value set. */
+#define WI_NOW(z)   (V_OLD((z)->work_index_item) != NULL ? V_OLD((z)->work_index_item) : (z)->work_index_item)
+#define LAST_NOW(z) (V_OLD((z)->work_index_item) != NULL ? V_OLD((z)->work_index_item) : (z)->index.last)
 #define WI_OLD_CLEN(z) (V_OLD((z)->work_index_item) == NULL ? (size_t)0 : V_OLD((z)->work_index_item->comp_length))
 
 /* frame of zck_write's loops = union of the caller-view frames of comp_write and zck_end_chunk (started context) */
@@ -187,7 +198,7 @@ V_GHOST_ENSURES(!__CPROVER_return_value || window != SPEC_BZ_WIDTH || g_same < S
 void buzhash_reset(buzHash *b)
 V_REQUIRES(__CPROVER_rw_ok(b, sizeof(*b)) && BZ_WF(b))
 V_ASSIGNS(b->window)
-V_GHOST_ASSIGNS(g_same, g_bz_have, g_bz_last_obj, g_bz_last_off)
+V_GHOST_ASSIGNS(g_same, g_bz_have)
 V_FREES_CALLEE(b->window)
 V_ENSURES(b->window == NULL) /*@C16.buzhash_reset.state_discarded_at_chunk_end*/
 V_GHOST_ENSURES(g_same == 0 && g_bz_have == 0)
@@ -208,10 +219,12 @@ V_ENSURES(!__CPROVER_return_value || V_OLD(zck->error_state) == 0) /*@C12.index_
 V_ENSURES(!__CPROVER_return_value || zck->work_index_item != NULL) /*@C01.index_add_to_chunk.entry_under_construction_exists*/
 V_ENSURES(V_OLD(zck->work_index_item) == NULL || zck->work_index_item == V_OLD(zck->work_index_item)) /*@C01.index_add_to_chunk.keeps_the_entry_under_construction*/
 V_ENSURES(V_OLD(zck->work_index_item) != NULL || zck->work_index_item == NULL || __CPROVER_is_fresh(zck->work_index_item, sizeof(zckChunk)))
-V_ENSURES(!__CPROVER_return_value || (zck->work_index_item->length == WI_OLD_LEN(zck) + orig_size && zck->work_index_item->comp_length == WI_OLD_CLEN(zck) + comp_size)) /*@C01.index_add_to_chunk.lengths_accumulate_exactly*/
+V_ENSURES(!__CPROVER_return_value || (WI_NOW(zck)->length == WI_OLD_LEN(zck) + orig_size && WI_NOW(zck)->comp_length == WI_OLD_CLEN(zck) + comp_size)) /*@C01.index_add_to_chunk.lengths_accumulate_exactly*/
 V_ENSURES(!__CPROVER_return_value || comp_size == 0 || g_hu_hash != &zck->work_index_hash || g_hu_total == (V_OLD(zck->work_index_item) == NULL ? 0 : V_OLD(g_hu_total)) + comp_size) /*@C01,C06.index_add_to_chunk.chunk_hash_fed_exactly_the_stored_bytes*/
 V_ENSURES(!__CPROVER_return_value || comp_size == 0 || g_hu_hash != &zck->full_hash || zck->has_uncompressed_source != 0 || g_hu_total == V_OLD(g_hu_total) + comp_size) /*@C01,C06.index_add_to_chunk.data_hash_fed_exactly_the_stored_bytes*/
 V_ENSURES(!__CPROVER_return_value || WHASH_WF(zck))
+V_ENSURES(!__CPROVER_return_value || comp_size != 0 || g_hu_hash != &zck->full_hash || g_hu_total == V_OLD(g_hu_total)) /*@C01,C06.index_add_to_chunk.data_hash_untouched_when_nothing_is_stored*/
+V_ENSURES(!__CPROVER_return_value || V_OLD(zck->work_index_item) == NULL || g_hu_hash != &zck->work_index_hash_uncomp || g_hu_total == V_OLD(g_hu_total)) /*@C01.index_add_to_chunk.uncompressed_chunk_hash_not_fed_here*/
 ;
 
 /* finishes the entry under construction: it becomes the last entry of the index with the
@@ -225,7 +238,7 @@ V_FREES_CALLEE(zck->work_index_hash.ctx, zck->work_index_hash_uncomp.ctx)
 V_ENSURES(!__CPROVER_return_value || V_OLD(zck->error_state) == 0) /*@C12.index_finish_chunk.no_success_on_a_context_in_error*/
 V_ENSURES(!__CPROVER_return_value || (zck->work_index_item == NULL && zck->index.count == V_OLD(zck->index.count) + 1)) /*@C01.index_finish_chunk.entry_moves_to_the_index*/
 V_ENSURES(!__CPROVER_return_value || (zck->index.last != NULL && zck->index.first != NULL && (V_OLD(zck->work_index_item) != NULL ? zck->index.last == V_OLD(zck->work_index_item) : __CPROVER_is_fresh(zck->index.last, sizeof(zckChunk))))) /*@C01.index_finish_chunk.appended_as_last*/
-V_ENSURES(!__CPROVER_return_value || (zck->index.last->length == WI_OLD_LEN(zck) && zck->index.last->comp_length == WI_OLD_CLEN(zck) && zck->index.last->start == V_OLD(zck->index.length) && zck->index.length == V_OLD(zck->index.length) + WI_OLD_CLEN(zck) && zck->index.last->next == NULL)) /*@C01,C13.index_finish_chunk.entry_carries_the_accumulated_lengths*/
+V_ENSURES(!__CPROVER_return_value || (LAST_NOW(zck)->length == WI_OLD_LEN(zck) && LAST_NOW(zck)->comp_length == WI_OLD_CLEN(zck) && LAST_NOW(zck)->start == V_OLD(zck->index.length) && zck->index.length == V_OLD(zck->index.length) + WI_OLD_CLEN(zck) && LAST_NOW(zck)->next == NULL)) /*@C01,C13.index_finish_chunk.entry_carries_the_accumulated_lengths*/
 V_ENSURES(!__CPROVER_return_value || (zck->work_index_hash.ctx == NULL && zck->work_index_hash.type == NULL && zck->work_index_hash_uncomp.ctx == NULL && zck->work_index_hash_uncomp.type == NULL))
 V_ENSURES(__CPROVER_return_value || zck->index.count == V_OLD(zck->index.count)) /*@C01.index_finish_chunk.no_entry_on_failure*/
 ;
@@ -243,17 +256,18 @@ V_ASSIGNS_MODEL(WR_GHOST_IO, WR_GHOST_HU)
 V_ASSIGNS_NODES(zck->work_index_item != NULL: __CPROVER_object_whole(zck->work_index_item))
 V_FREES_CALLEE(zck->comp.dc_data, zck->work_index_hash.ctx, zck->work_index_hash_uncomp.ctx)
 V_ENSURES(__CPROVER_return_value == -1 || (__CPROVER_return_value >= 0 && (size_t)__CPROVER_return_value == src_size)) /*@C01,C12.comp_write.all_or_error*/
-V_ENSURES(__CPROVER_return_value < 0 || (V_OLD(zck->error_state) == 0 && zck->mode == ZCK_MODE_WRITE)) /*@C12.comp_write.no_success_on_a_context_in_error*/
+V_ENSURES(__CPROVER_return_value < 0 || (V_OLD(zck->error_state) <= 0 && zck->mode == ZCK_MODE_WRITE)) /*@C12.comp_write.no_success_on_a_context_in_error*/
 V_ENSURES(__CPROVER_return_value < 0 || g_next_off == V_OLD(g_next_off) + src_size) /*@C01.comp_write.hands_exactly_its_bytes_to_the_codec*/
 V_ENSURES(__CPROVER_return_value < 0 || zck->comp.dc_data_size == V_OLD(zck->comp.dc_data_size) + src_size) /*@C01,C16.comp_write.chunk_length_grows_by_exactly_src_size*/
 V_ENSURES(__CPROVER_return_value < 0 || (WH1_WF(zck, &zck->work_index_hash) && WH1_WF(zck, &zck->work_index_hash_uncomp))) /*@C03.comp_write.keeps_work_hashes_typed*/
 V_ENSURES(__CPROVER_return_value < 0 || (zck->comp.type == ZCK_COMP_ZSTD && src_size != 0) || zck->comp.dc_data == V_OLD(zck->comp.dc_data)) /*@C03.comp_write.pass_through_keeps_no_buffer*/
 V_ENSURES(__CPROVER_return_value < 0 || zck->comp.type != ZCK_COMP_ZSTD || src_size == 0 || (zck->comp.dc_data != NULL && __CPROVER_is_fresh(zck->comp.dc_data, zck->comp.dc_data_size))) /*@C01,C03.comp_write.chunk_buffer_holds_dc_data_size_bytes*/
 V_ENSURES(__CPROVER_return_value < 0 || zck->work_index_item == V_OLD(zck->work_index_item) || (V_OLD(zck->work_index_item) == NULL && zck->work_index_item != NULL && __CPROVER_is_fresh(zck->work_index_item, sizeof(zckChunk)))) /*@C01,C03.comp_write.entry_under_construction_kept_or_created*/
-V_ENSURES_NODES(__CPROVER_return_value <= 0 || (zck->work_index_item != NULL && zck->work_index_item->length == WI_OLD_LEN(zck) + src_size)) /*@C01.comp_write.indexes_exactly_src_size_source_bytes*/
-V_ENSURES_NODES(__CPROVER_return_value <= 0 || zck->no_write != 0 || g_wr_bytes[G_IX(zck->temp_fd)] - V_OLD(g_wr_bytes[G_IX(zck->temp_fd)]) == zck->work_index_item->comp_length - WI_OLD_CLEN(zck)) /*@C01,C12.comp_write.writes_exactly_the_bytes_it_indexes*/
+V_ENSURES(__CPROVER_return_value <= 0 || zck->work_index_item != NULL) /*@C01.comp_write.bytes_taken_have_an_entry_under_construction*/
+V_ENSURES_NODES(__CPROVER_return_value <= 0 || (zck->work_index_item != NULL && WI_NOW(zck)->length == WI_OLD_LEN(zck) + src_size)) /*@C01.comp_write.indexes_exactly_src_size_source_bytes*/
+V_ENSURES_NODES(__CPROVER_return_value <= 0 || zck->no_write != 0 || g_wr_bytes[G_IX(zck->temp_fd)] - V_OLD(g_wr_bytes[G_IX(zck->temp_fd)]) == WI_NOW(zck)->comp_length - WI_OLD_CLEN(zck)) /*@C01,C12.comp_write.writes_exactly_the_bytes_it_indexes*/
 V_ENSURES_NODES(__CPROVER_return_value < 0 || zck->no_write == 0 || g_wr_bytes[G_IX(zck->temp_fd)] == V_OLD(g_wr_bytes[G_IX(zck->temp_fd)])) /*@C01.comp_write.no_write_writes_nothing*/
-V_ENSURES_NODES(__CPROVER_return_value <= 0 || g_hu_hash != &zck->full_hash || zck->has_uncompressed_source != 0 || g_hu_total - V_OLD(g_hu_total) == zck->work_index_item->comp_length - WI_OLD_CLEN(zck)) /*@C01,C06.comp_write.data_hash_covers_exactly_the_bytes_indexed*/
+V_ENSURES_NODES(__CPROVER_return_value <= 0 || g_hu_hash != &zck->full_hash || zck->has_uncompressed_source != 0 || g_hu_total - V_OLD(g_hu_total) == WI_NOW(zck)->comp_length - WI_OLD_CLEN(zck)) /*@C01,C06.comp_write.data_hash_covers_exactly_the_bytes_indexed*/
 V_ENSURES_NODES(__CPROVER_return_value <= 0 || g_hu_hash != &zck->work_index_hash_uncomp || zck->has_uncompressed_source == 0 || V_OLD(zck->work_index_item) == NULL || g_hu_total == V_OLD(g_hu_total) + src_size) /*@C01.comp_write.uncompressed_chunk_hash_fed_the_source_bytes*/
 ;
 
@@ -303,25 +317,62 @@ ssize_t zck_end_chunk(zckCtx *zck)
 V_REQUIRES(__CPROVER_rw_ok(zck, sizeof(*zck)))
 V_REQ_WR_COMMON(zck)
 V_REQUIRES(zck->comp.started != 0 ? WR_BOUNDS(zck) : (OPT_WF(zck) && zck->comp.dc_data_size == 0 && zck->comp.dc_data == NULL && zck->work_index_item == NULL))
+V_REQUIRES(PENDING_WF(zck))
 V_REQUIRES(!g_from_write || (zck->comp.started != 0 && (zck->manual_chunk != 0 ? zck->comp.dc_data_size == (size_t)zck->chunk_max_size : ((size_t)zck->chunk_auto_min <= zck->comp.dc_data_size && zck->comp.dc_data_size <= (size_t)zck->chunk_auto_max)))) /*@C16.zck_end_chunk.chunks_ended_by_the_write_loops_respect_the_effective_bounds*/
 V_EC_VARIANT()
 V_ASSIGNS_MODEL(WR_GHOST_IO, WR_GHOST_HU)
 V_ASSIGNS_NODES(zck->index.last != NULL: zck->index.last->next; zck->work_index_item != NULL: __CPROVER_object_whole(zck->work_index_item))
 V_FREES_CALLEE(zck->buzhash.window, zck->comp.dc_data, zck->work_index_hash.ctx, zck->work_index_hash_uncomp.ctx)
 V_ENSURES(__CPROVER_return_value >= -1)
-V_ENSURES(__CPROVER_return_value < 0 || (V_OLD(zck->error_state) == 0 && zck->mode == ZCK_MODE_WRITE)) /*@C12.zck_end_chunk.no_success_on_a_context_in_error*/
+V_ENSURES(__CPROVER_return_value < 0 || (V_OLD(zck->error_state) <= 0 && zck->mode == ZCK_MODE_WRITE)) /*@C12.zck_end_chunk.no_success_on_a_context_in_error*/
 V_ENSURES(__CPROVER_return_value < 0 || (zck->comp.started != 0 && WR_BOUNDS(zck))) /*@C16.zck_end_chunk.effective_bounds_in_force*/
 V_ENSURES(__CPROVER_return_value < 0 || (WH1_WF(zck, &zck->work_index_hash) && WH1_WF(zck, &zck->work_index_hash_uncomp) && (zck->comp.dc_data == NULL || zck->comp.dc_data == V_OLD(zck->comp.dc_data)) && (zck->work_index_item == NULL || zck->work_index_item == V_OLD(zck->work_index_item)) && (zck->buzhash.window == NULL || zck->buzhash.window == V_OLD(zck->buzhash.window)))) /*@C03.zck_end_chunk.keeps_writer_state_well_formed*/
 V_ENSURES(__CPROVER_return_value < 0 || (zck->index.first == NULL ? zck->index.last == NULL : zck->index.last != NULL)) /*@C03.zck_end_chunk.index_list_ends_consistent*/
 V_ENSURES(__CPROVER_return_value < 0 || zck->index.last == V_OLD(zck->index.last) || (V_OLD(zck->work_index_item) != NULL && zck->index.last == V_OLD(zck->work_index_item)) || (zck->index.last != NULL && __CPROVER_is_fresh(zck->index.last, sizeof(zckChunk)))) /*@C01,C03.zck_end_chunk.last_entry_is_the_old_one_the_finished_one_or_new*/
 V_ENSURES(__CPROVER_return_value < 0 || !EC_FINISHES(zck) || (zck->comp.dc_data_size == 0 && zck->work_index_item == NULL && (size_t)__CPROVER_return_value == V_OLD(zck->comp.dc_data_size))) /*@C01.zck_end_chunk.finished_chunk_leaves_nothing_pending*/
 V_ENSURES(__CPROVER_return_value < 0 || !EC_FINISHES(zck) || zck->index.count == V_OLD(zck->index.count) + 1) /*@C01.zck_end_chunk.finished_chunk_is_indexed*/
-V_ENSURES_NODES(__CPROVER_return_value < 0 || !EC_FINISHES(zck) || (zck->index.last != NULL && zck->index.last->length == WI_OLD_LEN(zck))) /*@C01.zck_end_chunk.finished_chunk_is_indexed_with_its_accumulated_size*/
-V_ENSURES_NODES(__CPROVER_return_value < 0 || !EC_FINISHES(zck) || zck->no_write != 0 || g_wr_bytes[G_IX(zck->temp_fd)] - V_OLD(g_wr_bytes[G_IX(zck->temp_fd)]) == zck->index.last->comp_length - WI_OLD_CLEN(zck)) /*@C01,C12.zck_end_chunk.writes_exactly_the_bytes_it_indexes*/
+V_ENSURES_NODES(__CPROVER_return_value < 0 || !EC_FINISHES(zck) || (zck->index.last != NULL && LAST_NOW(zck)->length == WI_OLD_LEN(zck))) /*@C01.zck_end_chunk.finished_chunk_is_indexed_with_its_accumulated_size*/
+V_ENSURES_NODES(__CPROVER_return_value < 0 || !EC_FINISHES(zck) || zck->no_write != 0 || g_wr_bytes[G_IX(zck->temp_fd)] - V_OLD(g_wr_bytes[G_IX(zck->temp_fd)]) == LAST_NOW(zck)->comp_length - WI_OLD_CLEN(zck)) /*@C01,C12.zck_end_chunk.writes_exactly_the_bytes_it_indexes*/
 V_ENSURES(__CPROVER_return_value < 0 || !EC_FINISHES(zck) || (zck->buzhash.window == NULL && g_bz_have == 0 && g_same == 0)) /*@C16.zck_end_chunk.rolling_hash_state_discarded_at_chunk_end*/
 V_ENSURES(__CPROVER_return_value < 0 || V_OLD(zck->comp.started) == 0 || EC_FINISHES(zck) || (zck->comp.dc_data_size == V_OLD(zck->comp.dc_data_size) && zck->work_index_item == V_OLD(zck->work_index_item) && zck->index.count == V_OLD(zck->index.count) && (size_t)__CPROVER_return_value == zck->comp.dc_data_size && zck->buzhash.window == V_OLD(zck->buzhash.window) && g_bz_have == V_OLD(g_bz_have) && g_same == V_OLD(g_same))) /*@C01.zck_end_chunk.refusal_changes_nothing*/
 V_ENSURES_NODES(__CPROVER_return_value < 0 || V_OLD(zck->comp.started) == 0 || EC_FINISHES(zck) || g_wr_bytes[G_IX(zck->temp_fd)] == V_OLD(g_wr_bytes[G_IX(zck->temp_fd)])) /*@C01.zck_end_chunk.refusal_writes_nothing*/
+V_ENSURES(__CPROVER_return_value < 0 || PENDING_WF(zck)) /*@C01.zck_end_chunk.no_half_built_entry_without_pending_bytes*/
 ;
+
+/* comp_end_chunk(zck, force): the worker behind zck_end_chunk (force == false) and zck_close (force == true:
+ * the last chunk of a file is ended even when it is shorter than the minimum chunk size -- C01: "a successful
+ * close never loses bytes").  Same text as zck_end_chunk with the refusal made conditional on !force; with
+ * force nothing is ever refused: a non-negative result means nothing is pending any more. */
+#define ECF_FINISHES(z) (V_OLD((z)->comp.started) != 0 && V_OLD((z)->comp.dc_data_size) > 0 && (force || V_OLD((z)->comp.dc_data_size) >= (size_t)V_OLD((z)->chunk_min_size)))
+#define ECF_REFUSES(z) (V_OLD((z)->comp.started) != 0 && !force && V_OLD((z)->comp.dc_data_size) < (size_t)V_OLD((z)->chunk_min_size))
+ssize_t comp_end_chunk(zckCtx *zck, bool force)
+V_REQUIRES(__CPROVER_rw_ok(zck, sizeof(*zck)))
+V_REQ_WR_COMMON(zck)
+V_REQUIRES(zck->comp.started != 0 ? WR_BOUNDS(zck) : (OPT_WF(zck) && zck->comp.dc_data_size == 0 && zck->comp.dc_data == NULL && zck->work_index_item == NULL))
+V_REQUIRES(PENDING_WF(zck))
+V_REQUIRES(!g_from_write || (!force && zck->comp.started != 0 && (zck->manual_chunk != 0 ? zck->comp.dc_data_size == (size_t)zck->chunk_max_size : ((size_t)zck->chunk_auto_min <= zck->comp.dc_data_size && zck->comp.dc_data_size <= (size_t)zck->chunk_auto_max)))) /*@C16.comp_end_chunk.chunks_ended_by_the_write_loops_respect_the_effective_bounds*/
+V_EC_VARIANT()
+V_ASSIGNS_MODEL(WR_GHOST_IO, WR_GHOST_HU)
+V_ASSIGNS_NODES(zck->index.last != NULL: zck->index.last->next; zck->work_index_item != NULL: __CPROVER_object_whole(zck->work_index_item))
+V_FREES_CALLEE(zck->buzhash.window, zck->comp.dc_data, zck->work_index_hash.ctx, zck->work_index_hash_uncomp.ctx)
+V_ENSURES(__CPROVER_return_value >= -1)
+V_ENSURES(__CPROVER_return_value < 0 || (V_OLD(zck->error_state) <= 0 && zck->mode == ZCK_MODE_WRITE)) /*@C12.comp_end_chunk.no_success_on_a_context_in_error*/
+V_ENSURES(__CPROVER_return_value < 0 || (zck->comp.started != 0 && WR_BOUNDS(zck))) /*@C16.comp_end_chunk.effective_bounds_in_force*/
+V_ENSURES(__CPROVER_return_value < 0 || (WH1_WF(zck, &zck->work_index_hash) && WH1_WF(zck, &zck->work_index_hash_uncomp) && (zck->comp.dc_data == NULL || zck->comp.dc_data == V_OLD(zck->comp.dc_data)) && (zck->work_index_item == NULL || zck->work_index_item == V_OLD(zck->work_index_item)) && (zck->buzhash.window == NULL || zck->buzhash.window == V_OLD(zck->buzhash.window)))) /*@C03.comp_end_chunk.keeps_writer_state_well_formed*/
+V_ENSURES(__CPROVER_return_value < 0 || (zck->index.first == NULL ? zck->index.last == NULL : zck->index.last != NULL)) /*@C03.comp_end_chunk.index_list_ends_consistent*/
+V_ENSURES(__CPROVER_return_value < 0 || zck->index.last == V_OLD(zck->index.last) || (V_OLD(zck->work_index_item) != NULL && zck->index.last == V_OLD(zck->work_index_item)) || (zck->index.last != NULL && __CPROVER_is_fresh(zck->index.last, sizeof(zckChunk)))) /*@C01,C03.comp_end_chunk.last_entry_is_the_old_one_the_finished_one_or_new*/
+V_ENSURES(__CPROVER_return_value < 0 || !ECF_FINISHES(zck) || (zck->comp.dc_data_size == 0 && zck->work_index_item == NULL && (size_t)__CPROVER_return_value == V_OLD(zck->comp.dc_data_size))) /*@C01.comp_end_chunk.finished_chunk_leaves_nothing_pending*/
+V_ENSURES(__CPROVER_return_value < 0 || !ECF_FINISHES(zck) || zck->index.count == V_OLD(zck->index.count) + 1) /*@C01.comp_end_chunk.finished_chunk_is_indexed*/
+V_ENSURES_NODES(__CPROVER_return_value < 0 || !ECF_FINISHES(zck) || (zck->index.last != NULL && LAST_NOW(zck)->length == WI_OLD_LEN(zck))) /*@C01.comp_end_chunk.finished_chunk_is_indexed_with_its_accumulated_size*/
+V_ENSURES_NODES(__CPROVER_return_value < 0 || !ECF_FINISHES(zck) || zck->no_write != 0 || g_wr_bytes[G_IX(zck->temp_fd)] - V_OLD(g_wr_bytes[G_IX(zck->temp_fd)]) == LAST_NOW(zck)->comp_length - WI_OLD_CLEN(zck)) /*@C01,C12.comp_end_chunk.writes_exactly_the_bytes_it_indexes*/
+V_ENSURES(__CPROVER_return_value < 0 || V_OLD(zck->comp.started) == 0 || ECF_REFUSES(zck) || (zck->buzhash.window == NULL && g_bz_have == 0 && g_same == 0)) /*@C16.comp_end_chunk.rolling_hash_state_discarded_at_chunk_end*/
+V_ENSURES(__CPROVER_return_value < 0 || !ECF_REFUSES(zck) || (zck->comp.dc_data_size == V_OLD(zck->comp.dc_data_size) && zck->work_index_item == V_OLD(zck->work_index_item) && zck->index.count == V_OLD(zck->index.count) && (size_t)__CPROVER_return_value == zck->comp.dc_data_size && zck->buzhash.window == V_OLD(zck->buzhash.window) && g_bz_have == V_OLD(g_bz_have) && g_same == V_OLD(g_same))) /*@C01.comp_end_chunk.refusal_changes_nothing*/
+V_ENSURES_NODES(__CPROVER_return_value < 0 || !ECF_REFUSES(zck) || g_wr_bytes[G_IX(zck->temp_fd)] == V_OLD(g_wr_bytes[G_IX(zck->temp_fd)])) /*@C01.comp_end_chunk.refusal_writes_nothing*/
+V_ENSURES(__CPROVER_return_value < 0 || !force || (zck->comp.dc_data_size == 0 && zck->work_index_item == NULL)) /*@C01.comp_end_chunk.forced_end_is_never_refused_nothing_stays_pending*/
+V_ENSURES(__CPROVER_return_value < 0 || V_OLD(zck->comp.started) == 0 || V_OLD(zck->comp.dc_data_size) != 0 || zck->index.count == V_OLD(zck->index.count)) /*@C01.comp_end_chunk.no_entry_for_an_empty_chunk*/
+V_ENSURES(__CPROVER_return_value < 0 || PENDING_WF(zck)) /*@C01.comp_end_chunk.no_half_built_entry_without_pending_bytes*/
+;
+
 
 /* zck_write (API).  C01: a non-negative result is src_size and means every source byte was handed to
  * the codec exactly once, in order (ghost offset g_next_off); termination is the decreases clauses of both loops.
@@ -331,6 +382,7 @@ V_REQUIRES(__CPROVER_rw_ok(zck, sizeof(*zck)) && zck->error_state >= 0)
 V_REQ_WR_COMMON(zck)
 V_REQUIRES(zck->comp.started != 0 ? WR_BOUNDS(zck) : (OPT_WF(zck) && zck->comp.dc_data_size == 0 && zck->comp.dc_data == NULL && zck->work_index_item == NULL))
 V_REQUIRES(src_size == 0 || (src != NULL && __CPROVER_r_ok(src, src_size)))
+V_REQUIRES(PENDING_WF(zck))
 V_REQUIRES(g_src_base == src && g_next_off == G_OFF(src) && g_track == 1 && g_from_write == 1 && g_bz_have == 0 && g_same == 0)
 V_ASSIGNS(COMP_INIT_FRAME, zck->buzhash, g_same, g_bz_have, g_bz_last_obj, g_bz_last_off, g_next_off)
 V_ASSIGNS_MODEL(WR_GHOST_IO, WR_GHOST_HU)
@@ -339,5 +391,6 @@ V_ENSURES(__CPROVER_return_value == -1 || (__CPROVER_return_value >= 0 && (size_
 V_ENSURES(__CPROVER_return_value < 0 || (V_OLD(zck->error_state) == 0 && zck->mode == ZCK_MODE_WRITE)) /*@C12.zck_write.no_success_on_a_context_in_error*/
 V_ENSURES(__CPROVER_return_value < 0 || g_next_off == G_OFF(src) + src_size) /*@C01.zck_write.every_source_byte_handed_on_exactly_once_in_order*/
 V_ENSURES(__CPROVER_return_value <= 0 || (zck->comp.started != 0 && WR_BOUNDS(zck))) /*@C16.zck_write.chunk_under_construction_within_effective_maximum*/
+V_ENSURES(__CPROVER_return_value < 0 || PENDING_WF(zck)) /*@C01.zck_write.no_half_built_entry_without_pending_bytes*/
 ;
 #endif
